@@ -44,10 +44,21 @@ def run_tests(repo, tests, keep_output=True):
         if b.returncode != 0:
             return {t: (None, 'witness build failed: ' + b.stdout[-1500:]) for t in tests}
         for t in tests:
-            r = subprocess.run(['cargo', 'test', '--offline', '--test', 'witness', '--', '--exact', t, '--nocapture'],
-                               cwd=dst, env=env, stdout=subprocess.PIPE, stderr=subprocess.STDOUT, text=True, timeout=600)
-            ran = re.search(r'running 1 test', r.stdout) is not None
-            res[t] = ((r.returncode == 0) if ran else None, r.stdout[-3000:])
+            # C18 is about release builds too: those witnesses run in both profiles
+            profiles = [[], ['--release']] if t.startswith('c18_') else [[]]
+            verdict, outs = True, []
+            for prof in profiles:
+                r = subprocess.run(['cargo', 'test', '--offline'] + prof + ['--test', 'witness', '--', '--exact', t, '--nocapture'],
+                                   cwd=dst, env=env, stdout=subprocess.PIPE, stderr=subprocess.STDOUT, text=True, timeout=900)
+                ran = re.search(r'running 1 test', r.stdout) is not None
+                outs.append('[profile %s]\n' % (prof or ['debug'])[0] + r.stdout[-2500:])
+                if not ran:
+                    verdict = None
+                    break
+                if r.returncode != 0:
+                    verdict = False
+                    break
+            res[t] = (verdict, '\n'.join(outs))
     finally:
         shutil.rmtree(tmp, ignore_errors=True)
     return res
